@@ -1,14 +1,15 @@
-from stages import beaconnet, beaconmodel
+from stages import beaconnet, beaconmodel, chainstore
+import random
 
 
 def run(ctx):
     q = ctx.quick
-    beaconmodel.design(ctx, [("MC_Beacon_async2.cfg", dict(timeout=900))] +
-                       ([] if q else [("MC_Beacon_sync3.cfg", dict(timeout=1500))]))
-    try:
-        from stages import chainstore
-        chainstore.run(ctx, chainstore.MON_C02)
-    except ImportError:
-        ctx.notes.append("single-node writer-race stage (ChainStore.tla) not available in this build")
-    for sch in beaconnet.schemes_for(ctx, 1):
+    if not q:
+        beaconmodel.design(ctx, [("MC_Beacon_async2.cfg", dict(timeout=900)), ("MC_Beacon_sync3.cfg", dict(timeout=1500))])
+    chainstore.run(ctx, chainstore.MON_C02)
+    schemes = beaconnet.schemes_for(ctx, 1)
+    if q:  # one scheme per quick run, chained or not by seed
+        schemes = [schemes[ctx.seed % 2]]
+    for sch in schemes:
         beaconnet.run(ctx, "C02", scheme=sch)
+    ctx.assumptions += ["BLS signatures are unique per (key, message), so two valid beacons of a round are byte-identical (checked on traces by digest)"]
